@@ -159,7 +159,19 @@ fn run_twise(ctx: &Ctx, out: &mut dyn Write) {
                         for _ in 0..reps {
                             writeln!(s, "op twise {} fitness {}", t, join(&f)).unwrap();
                             let msg = format!("t-wise l {} f {}", t, join(&f));
-                            match guarded(|| stream_text(&d.handle_stream_msg(&msg))) {
+                            twise_log_start();
+                            let res = guarded(|| stream_text(&d.handle_stream_msg(&msg)));
+                            // hook H9: only the trim decision and the shuffle are not determined by the input
+                            match twise_log_take() {
+                                Some(log) => {
+                                    writeln!(s, "olog {}", log.len()).unwrap();
+                                    for l in log {
+                                        writeln!(s, "o {}", l).unwrap();
+                                    }
+                                }
+                                None => writeln!(s, "olog absent").unwrap(),
+                            }
+                            match res {
                                 Ok(r) => writeln!(s, "r {}", r).unwrap(),
                                 Err(e) => writeln!(s, "panic {}", e).unwrap(),
                             }
